@@ -9,15 +9,18 @@ mod c02;
 mod c04;
 mod c05;
 mod c06;
+mod c07;
 mod c13;
 mod c14;
 mod c15;
 mod c16;
 mod c17;
+mod client;
 mod cs;
 mod real;
 mod seqs;
 mod sim;
+mod simterm;
 mod wf;
 mod util;
 
@@ -57,6 +60,10 @@ fn main() {
     let tier = if let Some(r) = &replay_only { r["tier"].as_str().unwrap_or(&tier).to_string() } else { tier };
     let run = RunInfo { property: property.clone(), tier, seed, start: Instant::now(), verif_dir, replay_only };
     quiet_panics();
+    if property == "BENCH" {
+        c07::bench();
+        return;
+    }
     let summary = match property.as_str() {
         "C01" => c0103::run(&run, false),
         "C02" => c02::run(&run),
@@ -64,6 +71,7 @@ fn main() {
         "C04" => c04::run(&run),
         "C05" => c05::run(&run),
         "C06" => c06::run(&run),
+        "C07" => c07::run(&run),
         "C11" => wf::run_c11(&run),
         "C13" => c13::run(&run),
         "C14" => c14::run(&run),
